@@ -47,6 +47,10 @@ def run_rules(model, prop, tier):
             ctx.analysis_errors.append(str(e))
     if not ctx.analysis_errors:
         ctx.check_floors()
+    for what in sorted(set(model.inlined)):
+        ctx.note('read in normal form (new relative to the reference tree): %s' % what)
+    for what in getattr(model, 'renamed_back', []):
+        ctx.note('local renamed relative to the reference tree, followed by its definition shape: %s' % what)
     return ctx
 
 
